@@ -30,7 +30,10 @@ def engine_check(ctx, prop_file, families, what, relevant=None, stream_b=None, r
     streams = {}
     samples = []
     if g is not None:
-        for fam, nq, nt in families:
+        default_runner = runner_name
+        for entry in families:
+            fam, nq, nt = entry[:3]
+            runner_name = entry[3] if len(entry) > 3 else default_runner      # a family may bring its own runner
             n = nq if ctx.quick else nt
             t0 = time.time()
             st, fails = X.explore(ctx, fam, n, runner=runner_name)
